@@ -18,6 +18,10 @@ CONFIGS = {
     "aes-detect-off":   dict(rustflags=["--cfg", "block_ciphers_verif"], features=["hazmat", "bcrypt"], hook=True),
     "aes-detect-off-z": dict(rustflags=["--cfg", "block_ciphers_verif"], features=["zeroize", "hazmat", "bcrypt"], hook=True),
     "soft-z":           dict(rustflags=["--cfg", "aes_force_soft", "--cfg", 'kuznyechik_backend="soft"'], features=["zeroize", "hazmat", "bcrypt"]),
+    "release-soft":     dict(rustflags=["--cfg", "aes_force_soft", "--cfg", 'kuznyechik_backend="soft"', "--cfg", "serpent_no_unroll"], features=["hazmat", "bcrypt"], profile="release"),
+    "release-compact":  dict(rustflags=["--cfg", "aes_force_soft", "--cfg", "aes_compact", "--cfg", 'kuznyechik_backend="compact_soft"'], features=["hazmat", "bcrypt"], profile="release"),
+    "dev-soft":         dict(rustflags=["--cfg", "aes_force_soft", "--cfg", 'kuznyechik_backend="soft"', "--cfg", "serpent_no_unroll"], features=["hazmat", "bcrypt"]),
+    "dev-compact":      dict(rustflags=["--cfg", "aes_force_soft", "--cfg", "aes_compact", "--cfg", 'kuznyechik_backend="compact_soft"'], features=["hazmat", "bcrypt"]),
     "compact-z":        dict(rustflags=["--cfg", "aes_force_soft", "--cfg", "aes_compact", "--cfg", 'kuznyechik_backend="compact_soft"'], features=["zeroize", "hazmat", "bcrypt"]),
 }
 
@@ -81,3 +85,16 @@ def drive_may_die(cfg_id, subcmd, out_path, timeout=600, **kw):
         cmd += ["--" + k.replace("_", "-"), str(v)]
     p = run(cmd, timeout=timeout, check=False)
     return out_path, p.returncode
+
+
+def build_tfz():
+    """The stand-alone Threefish zeroize probe (threefish built with --no-default-features --features zeroize)."""
+    if "tfz" in _built:
+        return _built["tfz"]
+    tdir = ensure_dir(os.path.join(HARNESS, "target", "cfg-tfz"))
+    env = {"CARGO_ENCODED_RUSTFLAGS": "-Awarnings", "CARGO_NET_OFFLINE": "true"}
+    p = run(["cargo", "build", "--offline", "-q", "-p", "tfz", "--target-dir", tdir], cwd=HARNESS, env=env, timeout=1800, check=False)
+    if p.returncode != 0:
+        raise ToolError(f"build of tfz failed:\n{(p.stdout or '')[-3000:]}")
+    _built["tfz"] = os.path.join(tdir, "debug", "tfz")
+    return _built["tfz"]
